@@ -481,39 +481,109 @@ def _fan(v):
     return np.array([[0, i, i + 1] for i in range(1, n - 1)], dtype=np.int32)
 
 
+def _triangulate(v):
+    """raysect triangulate2d by contract for the polygons of this harness: any valid triangulation of a simple polygon covers
+    the same point set.  Convex polygons: fan.  Simple quadrilaterals: split along the diagonal that lies inside, i.e. the one
+    starting at the reflex vertex (the quadrilateral's orientation is decided by the sign of its area)."""
+    n = len(v)
+    if n != 4 or not getattr(_triangulate, 'general_quad', False):
+        return _fan(v)
+    area2 = sum(v[i][0] * v[(i + 1) % 4][1] - v[(i + 1) % 4][0] * v[i][1] for i in range(4))
+    sgn = 1 if bool(area2 > 0) else -1
+    for r in range(4):
+        turn = _cross(v[(r - 1) % 4], v[r], v[(r + 1) % 4][0], v[(r + 1) % 4][1]) * sgn
+        if bool(turn < 0):          # reflex vertex: the diagonal r -> r+2 is interior
+            return np.array([[r, (r + 1) % 4, (r + 2) % 4], [r, (r + 2) % 4, (r + 3) % 4]], dtype=np.int32)
+    return _fan(v)
+
+
 def _mask_universe():
     from symx.universe import Universe
-    return Universe(stubs={'triangulate2d': _fan, 'Discrete2DMesh': _Mesh2D})
+    return Universe(stubs={'triangulate2d': _triangulate, 'Discrete2DMesh': _Mesh2D})
 
 
-def _replay_mask(model, label, n=4, **kw):
+def _proper_cross(ex, a, b, c, d):
+    """segments ab and cd cross in an interior point"""
+    return ex.all([_cross(a, b, c[0], c[1]) * _cross(a, b, d[0], d[1]) < 0, _cross(c, d, a[0], a[1]) * _cross(c, d, b[0], b[1]) < 0])
+
+
+def _general_quad(ex, mk, vs):
+    """any simple quadrilateral (convex or with one reflex vertex, either orientation) against the crossing-number rule"""
+    n = 4
+    for i in range(n):
+        for j in range(i + 1, n):
+            for k in range(j + 1, n):
+                ex.assume(ex.not_(ex.eq(_cross(vs[i], vs[j], vs[k][0], vs[k][1]), 0)), 'general position: no three vertices collinear')
+    ex.assume(ex.not_(_proper_cross(ex, vs[0], vs[1], vs[2], vs[3])), 'simple polygon: opposite edges do not cross')
+    ex.assume(ex.not_(_proper_cross(ex, vs[1], vs[2], vs[3], vs[0])), 'simple polygon: opposite edges do not cross')
+    x, y = ex.real('px'), ex.real('py')
+    for i in range(n):
+        ex.assume(ex.not_(ex.eq(_cross(vs[i], vs[(i + 1) % n], x, y), 0)), 'not on the boundary')
+        ex.assume(ex.not_(ex.eq(vs[i][1], y)), 'not level with a vertex (the crossing-number rule needs no tie-break)')
+    m = mk.PolygonMask2D([[vx, vy] for vx, vy in vs])
+    got = m(x, y)
+    # crossing number of the horizontal ray from the point towards +x
+    crossings = 0
+    for i in range(n):
+        a, b = vs[i], vs[(i + 1) % n]
+        if bool(a[1] > y) != bool(b[1] > y):
+            # x coordinate of the edge at height y, compared without division: sign(b.y - a.y) decides the direction
+            lhs = (x - a[0]) * (b[1] - a[1])
+            rhs = (y - a[1]) * (b[0] - a[0])
+            right = bool(lhs < rhs) if bool(b[1] > a[1]) else bool(lhs > rhs)
+            if right:
+                crossings += 1
+    inside = crossings % 2 == 1
+    ex.cover('inside' if inside else 'outside')
+    ex.prove(ex.eq(got, 1 if inside else 0), 'PolygonMask2D==point-in-polygon(crossing-number)-for-every-simple-quadrilateral')
+    ex.prove(len(_Mesh2D.made) == 1 and not _Mesh2D.made[0].limit, 'mask-never-raises-outside-the-polygon')
+    ex.sample({'n': 4, 'free_vertex': [i for i in range(4) if not isinstance(vs[i][0], float)]})
+
+
+def _replay_mask(model, label, n=4, general=None, **kw):
     """the counterexample on the compiled PolygonMask2D (public API) against an independent crossing-number test"""
     from cherab.core.math import PolygonMask2D
     g = lambda k: float(core.model_float(model[k])) if k in model else 0.0
     vs = [(g('vx%d' % i), g('vy%d' % i)) for i in range(n)]
+    if general is not None:
+        corners = [(0.0, 0.0), (1.0, 0.0), (1.0, 1.0), (0.0, 1.0)]
+        vs = [vs[i] if i == general else corners[i] for i in range(4)]
     x, y = g('px'), g('py')
     got = PolygonMask2D(vs)(x, y)
     cr = [_cross(vs[i], vs[(i + 1) % n], x, y) for i in range(n)]
     if min(abs(c) for c in cr) < 1e-9:
         return {'reproduced': False, 'note': 'point on an edge (rounding decides)'}
-    inside = all(c > 0 for c in cr)
-    return {'reproduced': (got == 1.0) != inside, 'mask': got, 'inside': inside}
+    crossings = 0
+    for i in range(n):
+        a, b = vs[i], vs[(i + 1) % n]
+        if (a[1] > y) != (b[1] > y) and x < a[0] + (y - a[1]) * (b[0] - a[0]) / (b[1] - a[1]):
+            crossings += 1
+    inside = crossings % 2 == 1
+    return {'reproduced': (got == 1.0) != inside, 'mask': got, 'inside': inside, 'vertices': vs, 'point': [x, y]}
 
 
 @harness('C13', name='polygon_mask', universe=_mask_universe, replay_real=_replay_mask,
-         tiers={'quick': [{'n': 3}, {'n': 4}], 'thorough': [{'n': 3}, {'n': 4}, {'n': 5}, {'n': 6}]},
+         tiers={'quick': [{'n': 3}, {'n': 4}, {'n': 4, 'general': 0}, {'n': 4, 'general': 3}],
+                'thorough': [{'n': 3}, {'n': 4}, {'n': 5}, {'n': 6}] + [{'n': 4, 'general': k} for k in range(4)]},
          functions=[M + 'mask.PolygonMask2D.__init__', M + 'mask.PolygonMask2D.evaluate'], cover=['inside', 'outside'],
-         bounds={'polygon': 'strictly convex counter-clockwise n-gon, n concrete per job, vertex coordinates symbolic',
-                 'point': 'symbolic, not on the boundary'},
-         stubs=['raysect triangulate2d: fan triangulation (valid for convex polygons)',
+         bounds={'polygon': 'strictly convex counter-clockwise n-gon, n concrete per job, or (general = k) every simple quadrilateral in general position, '
+                            'convex or with a reflex vertex, whose vertex k is symbolic and whose other vertices are corners of the unit square '
+                            '(the fully symbolic quadrilateral did not finish: degree-4 real arithmetic, > 15 min); vertex coordinates symbolic',
+                 'point': 'symbolic, not on the boundary (general quadrilaterals: not level with a vertex either)'},
+         stubs=['raysect triangulate2d: fan triangulation for convex polygons, split along the interior diagonal for quadrilaterals',
                 'raysect Discrete2DMesh: contract (value of the triangle containing the point; outside: ValueError if limit else '
                 'default_value)'],
-         outside=['non-convex simple polygons (need raysect\'s ear-clipping triangulation)', 'points exactly on the boundary',
+         outside=['non-convex polygons with more than four vertices (need raysect\'s ear-clipping triangulation)', 'points exactly on the boundary',
                   'the compiled mesh search (kd-tree) itself'])
-def polygon_mask(ex, uni, n):
+def polygon_mask(ex, uni, n, general=None):
     mk = uni.load(M + 'mask')
     _Mesh2D.made = []
+    _triangulate.general_quad = general is not None
     vs = [(ex.real('vx%d' % i), ex.real('vy%d' % i)) for i in range(n)]
+    if general is not None:
+        corners = [(0.0, 0.0), (1.0, 0.0), (1.0, 1.0), (0.0, 1.0)]
+        vs = [vs[i] if i == general else corners[i] for i in range(4)]
+        return _general_quad(ex, mk, vs)
     for i in range(n):
         a, b, c = vs[i], vs[(i + 1) % n], vs[(i + 2) % n]
         ex.assume(_cross(a, b, c[0], c[1]) > 0, 'strictly convex, counter-clockwise')
